@@ -232,3 +232,51 @@ INSTANCES.update({
 # C10 / C11 / C13: the harness asks for the local context after every call
 for _n in ["scope5", "scope6", "scope_q1", "scope_qfull", "ctx4", "ctx5", "poll_fut_d", "poll_eop", "poll_ss_d"]:
     INSTANCES[_n] = (dict(INSTANCES[_n][0], probe_ctx=True), INSTANCES[_n][1], INSTANCES[_n][2])
+
+# mixed sampled / unsampled parent sets behind a local parent (seeded S09, S10)
+INSTANCES.update({
+    "smp_mixed": (seq(["root", "child2", "setlp", "dropg", "childl", "lenter"], smp=[True, False], MaxOps=5, MaxSpans=4, MaxRoots=2,
+                      MaxTraces=2, MaxScopes=1, MaxLocal=1, MaxCycles=0, probe_ctx=True), "terminal", {}),
+})
+for _n in ["smp4", "smp5"]:
+    INSTANCES[_n] = (dict(INSTANCES[_n][0], probe_ctx=True), INSTANCES[_n][1], INSTANCES[_n][2])
+
+
+# ---------------- hand-written behaviours the model cannot express ---------------------------------
+# C07: tracing calls from a thread-local destructor. `early`: the object is older than fastrace's own
+# thread-locals on that thread, so it is destroyed after them (every call must degrade to a no-op);
+# `late`: destroyed before them (the calls are ordinary calls made while the thread exits).
+def _c(op, **kw):
+    d = dict(ev="call", op=op)
+    d.update(kw)
+    return d
+
+
+_DTOR_OPS = [
+    _c("root", h=191, tr=9, smp=True), _c("ctxs", h=191), _c("setlp", g=192, h=191), _c("lenter", l=193),
+    _c("levent", evt=dict(name=194, props=[])), _c("lprops", kvs=[[195, 195]]), _c("lexit", l=193), _c("childl", h=196), _c("ctxl"),
+    _c("dropg", g=192), _c("child", h=197, ps=[191], multi=False), _c("sevent", h=197, evt=dict(name=198, props=[])),
+    _c("sprops", h=197, kvs=[[199, 199]]), _c("drop", h=197), _c("drop", h=196), _c("cancel", h=191), _c("drop", h=191),
+    _c("lcstart", c=181), _c("lenter", l=182), _c("lexit", l=182), _c("lccollect", c=181, ls=183),
+    _c("root", h=184, tr=8, smp=False), _c("drop", h=184),
+]
+
+
+def _teardown(when, before, extra=()):
+    ops = list(_DTOR_OPS) + list(extra)
+    steps = [dict(ev="spawn", t=1, dtor=dict(when=when, ops=ops))]
+    steps += [dict(s, t=1) for s in before]
+    steps += [dict(ev="call", t=1, op="exit"), dict(ev="cycle"), dict(ev="cycle")]
+    return dict(steps=steps, prefix=True)
+
+
+_BEFORE = [
+    [],
+    [_c("root", h=101, tr=1, smp=True), _c("drop", h=101)],
+    [_c("root", h=101, tr=1, smp=True), _c("setlp", g=102, h=101), _c("lenter", l=103), _c("lexit", l=103), _c("dropg", g=102), _c("drop", h=101)],
+]
+EXTRA = {
+    "teardown": dict(cfg=dict(K=16), behaviours=[_teardown("early", b, [_c("ctxrandom")]) for b in _BEFORE] + [_teardown("late", b) for b in _BEFORE]),
+    "teardown_c": dict(cfg=dict(K=16, cancelable=True), behaviours=[_teardown("early", b) for b in _BEFORE] + [_teardown("late", b) for b in _BEFORE]),
+    "teardown_k1": dict(cfg=dict(K=1), behaviours=[_teardown("early", b) for b in _BEFORE] + [_teardown("late", b) for b in _BEFORE]),
+}
